@@ -47,7 +47,7 @@ Ltac break E :=
 
 Lemma replay_obs_wf c Sy rs ob rs' : rs_wf Sy rs -> replay_obs c Sy rs ob = Some rs' -> rs_wf Sy rs'.
 Proof.
-  intros W E. destruct ob as [o|T f kw cx|rid f kw cx|rid ai key data cx|rid ai cx|rid ai cx]; cbn [replay_obs] in E.
+  intros W E. destruct ob as [o|T f kw cx|rid f kw cx|rid ai key data cx ep|rid ai cx|rid ai cx]; cbn [replay_obs] in E.
   - eapply do_step_wf; eassumption.
   - break E. inversion E; subst rs'. eapply do_step_wf; [apply drain_all_wf; exact W|eassumption].
   - break E. inversion E; subst rs'.
@@ -107,14 +107,14 @@ Qed.
    one decorator with decorator kwargs, the body fires one event) *)
 Definition ex_case : ecase :=
   {| ec_legacy := true;
-     ec_trigs := [ {| t_func := 100; t_kind := KEvent; t_key := 20; t_filter := Some (FCmp CmpEq 24 (VInt 1)); t_kwargs := [(25%N, VInt 5)] |} ];
+     ec_trigs := [ {| t_func := 100; t_dm := 100; t_epochs := [0%N]; t_kind := KEvent; t_key := 20; t_filter := Some (FCmp CmpEq 24 (VInt 1)); t_kwargs := [(25%N, VInt 5)] |} ];
      ec_order := [];
      ec_scripts := [(100%N, [SSleep; SFire 21 [(22%N, VInt 1)] CNone])];
-     ec_obs := [ OBus {| o_kind := KEvent; o_key := 20; o_ctx := Some 1%N; o_attrs := []; o_data := [(24%N, VInt 2)]; o_opt := None |};
-                 OBus {| o_kind := KEvent; o_key := 20; o_ctx := Some 2%N; o_attrs := []; o_data := [(24%N, VInt 1)]; o_opt := None |};
+     ec_obs := [ OBus {| o_kind := KEvent; o_key := 20; o_epoch := 0; o_ctx := Some 1%N; o_attrs := []; o_data := [(24%N, VInt 2)]; o_opt := None |};
+                 OBus {| o_kind := KEvent; o_key := 20; o_epoch := 0; o_ctx := Some 2%N; o_attrs := []; o_data := [(24%N, VInt 1)]; o_opt := None |};
                  ORunning 0 100 [(1%N, VStr 4); (2%N, VStr 20); (3%N, VCtx 2); (24%N, VInt 1); (25%N, VInt 5)] {| c_id := 3; c_parent := Some 2%N |};
                  OBegin 1 100 [(25%N, VInt 5); (1%N, VStr 4); (2%N, VStr 20); (3%N, VCtx 2); (24%N, VInt 1)] {| c_id := 3; c_parent := Some 2%N |};
-                 OFire 1 1 21 [(13%N, VInt 1); (14%N, VInt 1); (22%N, VInt 1)] {| c_id := 3; c_parent := Some 2%N |} ] |}.
+                 OFire 1 1 21 [(13%N, VInt 1); (14%N, VInt 1); (22%N, VInt 1)] {| c_id := 3; c_parent := Some 2%N |} 0 ] |}.
 
 Example model_ok_example : ecase_model_ok all_off ex_case = true /\ ecase_spec_ok ex_case = true /\
                            length (ecase_path all_off ex_case) = 6%nat.
